@@ -497,6 +497,9 @@ def run(chk):
     # ---- imaginary-time solver pairs (same abstract runs as C09, imaginary rows only)
     from .chain_rules import tdvp_solver_rule
     tdvp_solver_rule(chk, src, "solver-sibling", None, imag_only=True)
+    chk.rule("midpoint-reentry", "constant mean field with midpoint environment (abstract runs): the dispatcher is re-entered with half the step in the same time mode, refinements off, configuration restored", 4)
+    from .chain_rules import cmf_midpoint_rule
+    cmf_midpoint_rule(chk, src, "midpoint-reentry")
     # ---- re-entrant evolution keeps the time mode
     chk.rule("imag-reentry", "an evolver that converts an imaginary step to a real number passes an imaginary step again when it re-enters evolve()", 1)
     n_re = 0
